@@ -237,7 +237,17 @@ func c12Twin(k *K, adv *Adversary, peers []*Peer, addr string, w, r iface.Store,
 	if pl[i] == c {
 		c = 'B'
 	}
-	h["payload"] = pl[:i] + string(c) + pl[i+1:]
+	if hs, ok := h["hash"].(map[string]interface{}); ok && len(LogValues(w)) > 1 && k.C.Chance(1, 2) {
+		// the content as it was signed, under the address of another entry of the same log
+		for _, e := range LogValues(w) {
+			if o := e.GetHash().String(); o != hs["/"] {
+				h["hash"] = map[string]interface{}{"/": o}
+				break
+			}
+		}
+	} else {
+		h["payload"] = pl[:i] + string(c) + pl[i+1:]
+	}
 	twin, _ := json.Marshal(msg)
 	routeSet := []string{"topic", "direct", "direct-back-to-back"}
 	if len(LogValues(w)) == 1 {
